@@ -1,5 +1,5 @@
 SPECIFICATION FairSpec
-CONSTANTS Stems <- StemsDef Roots <- RootsDef Cols <- Cols3 BaseSet <- BasesAll MaxOps = 3 NRows = 5
+CONSTANTS Stems <- StemsDef Roots <- RootsDef Cols <- Cols3 BaseSet <- BasesAll MaxOps = 3 Exts <- ExtsCsv NRows = 5
  Mut_NoDot = FALSE Mut_ReadUnfiltered = FALSE Mut_SharedSeen = FALSE Mut_BreakOnSeen = FALSE Mut_KeyWithDecoy = FALSE Mut_TempAppend = FALSE AsIs_BaseNames = FALSE
 PROPERTY Halts
 CHECK_DEADLOCK FALSE
